@@ -34,10 +34,9 @@ Definition get_split_legacy (d : ds) (name : string) : option ds :=
 
 (* a materialized dataset with the given index labels and split values; row i has id i *)
 Definition dataset_of (labels : list lbl) (splits : list Z) : ds :=
-  materialize
-    (mkDs (map (fun p => mkRow (fst (snd p)) (fst p) (snd (snd p)))
-               (combine (seq 0 (List.length labels)) (combine labels splits)))
-          ["rid"; "s"]%string ["rid"]%string None (Some "s"%string) false None).
+  let rows := map (fun p => mkRow (fst (snd p)) (fst p) (snd (snd p)))
+                  (combine (seq 0 (List.length labels)) (combine labels splits)) in
+  mkDs rows ["rid"; "s"]%string ["rid"]%string None (Some "s"%string) true (Some (map rid rows)).
 
 (* Even on the default RangeIndex: after a shuffle, the legacy 'train' subset
    contains a row whose split value is not 0 (train/val leakage).
